@@ -31,8 +31,9 @@ type PeerOp struct {
 }
 
 type C05Session struct {
-	Senders [][]int64 `json:"senders"` // per sender goroutine: delay (ns) before each of its sends
-	Peer    []PeerOp  `json:"peer"`
+	Senders  [][]int64 `json:"senders"` // per sender goroutine: delay (ns) before each of its sends
+	Peer     []PeerOp  `json:"peer"`
+	GapAfter int64     `json:"gap_after"` // virtual ns between the end of this connection and the next session (-1: the full settling time)
 }
 
 type C05Case struct {
@@ -76,9 +77,10 @@ func genC05(t *rapid.T) *C05Case {
 		np := rapid.IntRange(0, 8).Draw(t, "peerOps")
 		for i := 0; i < np; i++ {
 			ss.Peer = append(ss.Peer, PeerOp{At: rapid.Int64Range(0, int64(c.N)*3e9).Draw(t, "peerAt"),
-				Kind: rapid.SampledFrom([]string{"testreq", "testreq", "heartbeat", "invalid", "app"}).Draw(t, "peerKind")})
+				Kind: rapid.SampledFrom([]string{"testreq", "testreq", "heartbeat", "invalid", "app", "resend", "resend-open"}).Draw(t, "peerKind")})
 		}
 		sort.SliceStable(ss.Peer, func(i, j int) bool { return ss.Peer[i].At < ss.Peer[j].At })
+		ss.GapAfter = rapid.SampledFrom([]int64{-1, 0, 1e6, int64(c.N) * 5e8}).Draw(t, "gapAfter")
 		c.Sessions = append(c.Sessions, ss)
 	}
 	return c
@@ -224,6 +226,10 @@ func checkC05(c *C05Case, rec *evid.Rec) (vs []pbt.Violation) {
 							m = &rig.InMsg{Type: rig.TTestRequest, Seq: next(), Fields: []rig.Tok{rig.F(rig.TagTestReqID, fmt.Sprint("p", k))}}
 						case "heartbeat":
 							m = &rig.InMsg{Type: rig.THeartbeat, Seq: next()}
+						case "resend":
+							m = &rig.InMsg{Type: rig.TResendRequest, Seq: next(), Fields: []rig.Tok{rig.F(rig.TagBeginSeqNo, "1"), rig.F(rig.TagEndSeqNo, "2")}}
+						case "resend-open":
+							m = &rig.InMsg{Type: rig.TResendRequest, Seq: next(), Fields: []rig.Tok{rig.F(rig.TagBeginSeqNo, "1"), rig.F(rig.TagEndSeqNo, "0")}}
 						case "invalid":
 							m = &rig.InMsg{Type: rig.THeartbeat, Seq: next(), Damage: "checksum", DamageBy: k}
 						default:
@@ -266,10 +272,16 @@ func checkC05(c *C05Case, rec *evid.Rec) (vs []pbt.Violation) {
 			}
 			conn.PeerClose()
 			synctest.Wait()
-			time.Sleep(rig.Settle(c.N))
 			if ir != nil && !ir.Returned() {
 				ir.I.Close()
-				time.Sleep(time.Second)
+				synctest.Wait()
+			}
+			// the next session may start while goroutines of this one are still
+			// winding down: nothing of the old session may take a number any more
+			if ss.GapAfter < 0 || si == len(c.Sessions)-1 {
+				time.Sleep(rig.Settle(c.N))
+			} else if ss.GapAfter > 0 {
+				time.Sleep(time.Duration(ss.GapAfter))
 			}
 		}
 		if ar != nil {
@@ -284,7 +296,7 @@ func checkC05(c *C05Case, rec *evid.Rec) (vs []pbt.Violation) {
 		rec.Hist("bubble-ended-with-blocked-goroutines")
 	}
 	expected := 1
-	total, timerDriven := 0, 0
+	total, timerDriven, retransmitted := 0, 0, 0
 	wantSender, wantTarget := "LIB", "PEER"
 	for si, o := range obs {
 		// numbers continue from the stored counter (a message numbered while the
@@ -320,6 +332,12 @@ func checkC05(c *C05Case, rec *evid.Rec) (vs []pbt.Violation) {
 			calls[s.seq] = s
 		}
 		var seqs []int
+		resendAsked := false
+		for _, op := range c.Sessions[si].Peer {
+			if op.Kind == "resend" || op.Kind == "resend-open" {
+				resendAsked = true
+			}
+		}
 		for k, m := range msgs {
 			total++
 			if err := ref.Framed(m, ref.StdTags); err != nil {
@@ -329,6 +347,10 @@ func checkC05(c *C05Case, rec *evid.Rec) (vs []pbt.Violation) {
 			out := rig.Decode(m)
 			n := atoi(out.Seq)
 			seqs = append(seqs, n)
+			if n < expected && n >= 1 && resendAsked {
+				retransmitted++
+				continue // a retransmission requested by the peer (judged by C10)
+			}
 			if n != expected {
 				kind := "gap"
 				if n < expected {
@@ -381,6 +403,14 @@ func checkC05(c *C05Case, rec *evid.Rec) (vs []pbt.Violation) {
 	}
 	if timerDriven > 0 {
 		rec.Hist("session-generated-messages-interleaved")
+	}
+	if retransmitted > 0 {
+		rec.Hist("with-retransmissions")
+	}
+	for i, ss := range c.Sessions {
+		if i+1 < len(c.Sessions) && ss.GapAfter >= 0 {
+			rec.Hist("next-session-starts-early")
+		}
 	}
 	rec.Extra("wire_messages", int64(total))
 	if rec.WantSample() && nontrivial {
